@@ -118,7 +118,7 @@ RingApplied(k, n, cap) == LET r == (k - 1) % cap IN r + 1 + cap * ((n - 1 - r) \
 \* (two buffer entries, 30 chip cycles).  Burst of n writes into an idle queue: position j (1-based) is
 \* applied this many chip cycles of RENDERED time after the burst (a full buffer applies its oldest
 \* entry at once and skips chip time instead of rendering it).
-NukedLatencyCycles(j, n, cap, cyc) == LET over == Max(0, n - cap) IN Max(0, (j - over)) * cyc
+NukedLatencyCycles(j, n, cap, cyc) == IF n <= cap THEN (j - 1) * cyc ELSE Max(0, j - (n - cap)) * cyc
 
 (* ------------------------------------------------------------------ events and what they cost
    An event is <<t, ch, a, b>>: t = 0 note-off(ch, key a), 1 note-on(ch, key a, velocity b),
@@ -166,6 +166,7 @@ KeyOnPos(H, evs, i, acc, hk, pos) ==
 (* ------------------------------------------------------------------ burst templates (the model chooses)
    kind: "single" | "chord" | "b16A" "b64A" (filler = note-on/off pairs of another key on another channel)
          | "b64B" (filler = pitch-bend wiggles ending at the centre) | "b64C" (filler = volume toggles)
+         | "b64D" (a chord on one MIDI channel, then volume toggles of that channel)
    pos : 1 = target first, 2 = middle, 3 = last.   Events as tuples, see above. *)
 MelodicCh == <<0, 1, 2, 3, 4, 5, 6, 7, 8, 10, 11, 12, 13, 14, 15>>
 On(ch, k)  == <<1, ch, k, 127>>
@@ -188,18 +189,32 @@ Filler(kind, key, i) ==             \* i-th (1-based) filler event
     [] kind = "b64B" -> IF i % 2 = 1 THEN <<3, 0, 0, 80>> ELSE <<3, 0, 0, 64>>
     [] OTHER -> <<2, 0, 7, 100 + (i % 2)>>
 BurstLen(kind) == IF kind = "b16A" THEN 16 ELSE 64
-\* target note-on at position p of nev events, an even number of fillers before it (pairs stay complete)
+VolumeDefault == <<2, 0, 7, 100>>
+\* kinds A B C: the target note-on, an even number nf of fillers (complete pairs) of which `before` precede
+\* it, and a closing volume event
 BurstEvents(kind, key, pos) ==
   LET nev == BurstLen(kind)
-      nf == nev - 1
-      before == CASE pos = 1 -> 0 [] pos = 2 -> 2 * (nf \div 4) [] OTHER -> 2 * (nf \div 2)
+      nf == nev - 2
+      before == CASE pos = 1 -> 0 [] pos = 2 -> 2 * (nf \div 4) [] OTHER -> nf
   IN [i \in 1..nev |-> IF i <= before THEN Filler(kind, key, i)
                        ELSE IF i = before + 1 THEN On(0, key)
-                       ELSE Filler(kind, key, i - 1)]
+                       ELSE IF i < nev THEN Filler(kind, key, i - 1)
+                       ELSE VolumeDefault]
+\* kind D: a chord on ONE MIDI channel (6, 3 or 2 keys, target first) followed by volume toggles of that channel
+DChord(pos) == CASE pos = 1 -> 6 [] pos = 2 -> 3 [] OTHER -> 2
+DEvents(key, pos) ==
+  LET m == DChord(pos) IN
+  [i \in 1..64 |-> IF i <= m THEN On(0, ChordKey(key, i - 1)) ELSE IF i < 64 THEN <<2, 0, 7, 100 + (i % 2)>> ELSE VolumeDefault]
 OnEvents(kind, key, chips, pos) ==
   CASE kind = "single" -> <<On(0, key)>>
     [] kind = "chord" -> ChordOn(key, ChordSize(chips), pos)
+    [] kind = "b64D" -> DEvents(key, pos)
     [] OTHER -> BurstEvents(kind, key, pos)
+\* note-offs of everything a burst leaves held (ordered by channel, key)
+RECURSIVE OffsOf(_)
+OffsOf(H) == IF H = {} THEN <<>>
+             ELSE LET h == CHOOSE x \in H : \A y \in H : x[1] < y[1] \/ (x[1] = y[1] /\ x[2] <= y[2])
+                  IN <<Off(h[1], h[2])>> \o OffsOf(H \ {h})
 
 \* what the write-path model predicts for the target note of a burst on ONE chip (all writes in one queue)
 Predict(emu, evs, key) ==
@@ -213,52 +228,51 @@ Predict(emu, evs, key) ==
 
 (* ------------------------------------------------------------------ (3) life-cycle observation automaton
    Windows are <<lo, hi, rms>> over 5 ms; idle band = [ilo, ihi] of the instance's first rendering.
-   Window classes:  "idle"  every sample within 1 % of full scale of the idle band
-                    "sound" the tone is there: within the next g windows the output leaves the idle band
-                            on BOTH sides (one held key; g covers one period of its nominal frequency) or
-                            on some side (several held keys)
-                    "other" neither;   "open" not enough windows left in this rendering to tell *)
+   A window is IDLE when every sample is within 1 % of full scale of the idle band.  The tone is THERE at a
+   window when within the next g windows the output leaves the idle band on BOTH sides (one held key; g
+   covers one period of its nominal frequency) or on some side (several held keys). *)
 WinIdle(w, ilo, ihi) == w[1] >= ilo - FullScale1 /\ w[2] <= ihi + FullScale1
 WinAbove(w, ihi) == w[2] > ihi + FullScale1
 WinBelow(w, ilo) == w[1] < ilo - FullScale1
 \* windows spanned by one period of `key` plus two (phase and edge effects); at least 2
 GroupLen(key, rate, wf) == Max(2, ((rate * 1000) \div Nominal(key)) \div wf + 2)
 ChordGroup == 5
-WinClass(W, i, g, single, ilo, ihi) ==
-  IF WinIdle(W[i], ilo, ihi) /\ (i + g - 1 > Len(W) \/ g = 0) THEN "idle"
-  ELSE IF i + g - 1 > Len(W) THEN "open"
+\* is the tone there at window i?  "yes" / "no" / "open" (not enough windows left in this rendering to tell)
+WinSound(W, i, g, single, ilo, ihi) ==
+  IF i + g - 1 > Len(W) THEN "open"
   ELSE LET up == \E j \in i..(i + g - 1) : WinAbove(W[j], ihi)
            dn == \E j \in i..(i + g - 1) : WinBelow(W[j], ilo)
-       IN IF (single /\ up /\ dn) \/ (~single /\ (up \/ dn)) THEN "sound"
-          ELSE IF WinIdle(W[i], ilo, ihi) THEN "idle" ELSE "other"
+       IN IF (single /\ up /\ dn) \/ (~single /\ (up \/ dn)) THEN "yes" ELSE "no"
 
-\* Automaton.  st: "Idle" "Attack" "Settle" "Sounding" "Release" "Failed" (= reported, wait for the next command)
-\* age = frames rendered since the last command; t10 / trel = deadlines in frames.
-\* Command with held sets before/after:
-LcCommand(st, Hb, Ha, why) ==
-  IF Ha = {} THEN [st |-> IF st = "Idle" /\ why = "ev" /\ Hb = {} THEN "Idle" ELSE "Release", why |-> why]
-  ELSE IF Hb = {} \/ st \in {"Idle", "Release"} THEN [st |-> "Attack", why |-> why]
-  ELSE IF Hb \subseteq Ha THEN [st |-> IF st = "Failed" THEN "Failed" ELSE IF st = "Attack" THEN "Attack" ELSE "Sounding", why |-> why]
-  ELSE [st |-> IF st = "Failed" THEN "Failed" ELSE "Settle", why |-> why]
-\* One window of class c starting `age` frames after the last command.  Returns new state and verdict label ("" = none)
-LcWindow(st, c, age, t10, trel) ==
+\* Automaton.  st: "Idle" "Attack" "Settle" "Sounding" "Release" "Failed" (= reported; waits for the next command)
+\* A command (burst / panic / reset) with the held sets before and after it; anyOn = the burst keyed something
+LcCommand(st, Hb, Ha, anyOn) ==
+  IF Ha = {} THEN (IF st = "Idle" /\ ~anyOn THEN "Idle" ELSE "Release")
+  ELSE IF Hb = {} \/ st \in {"Idle", "Release"} THEN "Attack"
+  ELSE IF st = "Failed" THEN "Failed"
+  ELSE IF Hb \subseteq Ha THEN (IF st = "Attack" THEN "Attack" ELSE st)
+  ELSE "Settle"
+\* One window starting `age` frames after the last command: snd = WinSound, idle = WinIdle of the window.
+\* t10 / trel = onset / release deadlines in frames.  Returns the new state and a verdict ("" = none).
+LcWindow(st, snd, idle, age, t10, trel) ==
   CASE st = "Attack" ->
-         IF c = "sound" THEN [st |-> "Sounding", v |-> ""]
-         ELSE IF age >= t10 /\ c # "open" THEN [st |-> "Failed", v |-> "no-sound"]
+         IF snd = "yes" THEN [st |-> "Sounding", v |-> ""]
+         ELSE IF age >= t10 /\ snd = "no" THEN [st |-> "Failed", v |-> "no-sound"]
          ELSE [st |-> "Attack", v |-> ""]
     [] st = "Settle" ->
-         IF age < trel THEN [st |-> "Settle", v |-> ""]
-         ELSE IF c = "sound" THEN [st |-> "Sounding", v |-> ""]
-         ELSE IF c = "open" THEN [st |-> "Settle", v |-> ""]
+         IF age < trel \/ snd = "open" THEN [st |-> "Settle", v |-> ""]
+         ELSE IF snd = "yes" THEN [st |-> "Sounding", v |-> ""]
          ELSE [st |-> "Failed", v |-> "no-sound"]
     [] st = "Sounding" ->
-         IF c \in {"sound", "open"} THEN [st |-> "Sounding", v |-> ""] ELSE [st |-> "Failed", v |-> "no-sound"]
+         IF snd # "no" THEN [st |-> "Sounding", v |-> ""]
+         ELSE IF age < t10 THEN [st |-> "Attack", v |-> ""]     \* what was heard was an earlier note's tail
+         ELSE [st |-> "Failed", v |-> "no-sound"]
     [] st = "Release" ->
          IF age < trel THEN [st |-> "Release", v |-> ""]
-         ELSE IF c = "idle" THEN [st |-> "Idle", v |-> ""]
+         ELSE IF idle THEN [st |-> "Idle", v |-> ""]
          ELSE [st |-> "Failed", v |-> "not-idle"]
     [] st = "Idle" ->
-         IF c = "idle" THEN [st |-> "Idle", v |-> ""] ELSE [st |-> "Failed", v |-> "not-idle"]
+         IF idle THEN [st |-> "Idle", v |-> ""] ELSE [st |-> "Failed", v |-> "not-idle"]
     [] OTHER -> [st |-> st, v |-> ""]
 
 (* ------------------------------------------------------------------ property predicates on measured integers *)
